@@ -899,6 +899,25 @@ func (ctx *EvalCtx) callExpr(x *ast.CallExpr) CV {
 				return CV{f.And(f.Ge(t, f.Int(0)), f.Lt(t, ctx.state().frontier)), nil}
 			}
 			return CV{f.And(f.Gt(t, f.Int(0)), f.Lt(t, ctx.state().frontier)), nil}
+		case "samecontents":
+			// samecontents(s), in a postcondition: the backing array of slice s holds what it held on entry (every
+			// element, without a quantifier)
+			a := ctx.eval(x.Args[0])
+			sl, ok := types.Unalias(a.typ).Underlying().(*types.Slice)
+			if !ok || ctx.old == nil {
+				ctx.fail("samecontents() needs a slice, in a postcondition")
+			}
+			name := ex.eComp(sl.Elem())
+			srt := ArraySort(SInt, ArraySort(SInt, ex.tm.SortOf(sl.Elem())))
+			ref := f.Acc("Slice", "ref", a.t)
+			return CV{f.Eq(f.Select(ex.comp(ctx.st, name, srt), ref), f.Select(ex.comp(ctx.old, name, srt), ref)), nil}
+		case "samearray":
+			// samearray(s, t): the two slices share their backing array (writes through one may show in the other)
+			a, b := ctx.eval(x.Args[0]), ctx.eval(x.Args[1])
+			if a.t.sort != Sort("Slice") || b.t.sort != Sort("Slice") {
+				ctx.fail("samearray() needs two slices")
+			}
+			return CV{f.And(f.Neq(f.Acc("Slice", "ref", a.t), f.Int(0)), f.Eq(f.Acc("Slice", "ref", a.t), f.Acc("Slice", "ref", b.t))), nil}
 		case "isnil":
 			a := ctx.eval(x.Args[0])
 			if a.t.sort == Sort("Slice") {
